@@ -142,6 +142,13 @@ class AlgorithmWithAnnealingMixin:
                 else:
                     # Decrease temperature linearly
                     self.temperature -= self._annealing_temperature_decrement
+                    # the last plateau is at temperature 1 exactly
+                    # (no floating-point residue left by the repeated subtraction)
+                    if (
+                        self.current_iteration // self._annealing_period
+                        >= self.algo_parameters["annealing"]["n_plateau"] - 1
+                    ):
+                        self.temperature = 1.0
                     self.temperature = max(self.temperature, 1)
 
                 self.temperature_inv = 1.0 / self.temperature
